@@ -248,6 +248,29 @@ def plan(tier: str, seed: int) -> list[dict[str, Any]]:
             cases.append({"k": "pad", "shape": list(shp), "pw": pw if isinstance(pw, int)
                           else [list(p) if isinstance(p, tuple) else p for p in
                                 (pw if isinstance(pw, list) else list(pw))], "d": d})
+    # whole small spaces instead of hand-picked lists: pad widths, roll shifts, new shapes
+    cap2 = 100000 if thorough else 150
+    pw_space: list[tuple[list[int], Any]] = []
+    for shp in [(3,), (2, 3), (0, 2), (1,), ()]:
+        nd = len(shp)
+        pw_space += [(list(shp), w) for w in range(-1, 3)]
+        pw_space += [(list(shp), [b_, a_]) for b_ in range(-1, 3) for a_ in range(0, 3)]
+        pw_space += [(list(shp), [[b_, a_] for b_, a_ in combo])
+                     for n_ in {1, nd, nd + 1} if n_ >= 1
+                     for combo in itertools.product(
+                         [(0, 0), (0, 2), (1, 0), (2, 1), (-1, 0)], repeat=n_)]
+    for shp_, pw in (pw_space if len(pw_space) <= cap2 else rng.sample(pw_space, cap2)):
+        cases.append({"k": "pad", "shape": shp_, "pw": pw, "d": rng.choice(["float64", "int32"])})
+    roll_space = [(list(shp), sh_, ax) for shp in [(3,), (2, 3), (1, 4), (0, 2), ()]
+                  for sh_ in range(-7, 8) for ax in [None, *range(-len(shp) - 1, len(shp) + 1)]]
+    for shp_, sh_, ax in (roll_space if len(roll_space) <= cap2 else rng.sample(roll_space, cap2)):
+        cases.append({"k": "roll", "shape": shp_, "axis": ax, "shift": sh_})
+    rs_space = [(list(shp), list(new), order)
+                for shp in [(6,), (2, 3), (2, 3, 2), (0, 3), (), (1,), (1, 1)]
+                for ln in range(0, 4) for new in itertools.product((-1, 0, 1, 2, 3, 6), repeat=ln)
+                for order in ("C", "F")]
+    for shp_, new_, order in (rs_space if len(rs_space) <= cap2 else rng.sample(rs_space, cap2 * 2)):
+        cases.append({"k": "reshape", "shape": shp_, "new": new_, "order": order})
     # random programs: every intermediate node
     nprog = 30000 if thorough else 2500
     for i in range(nprog):
